@@ -26,6 +26,9 @@ int __lsan_do_recoverable_leak_check(void);
 
 static TickitTerm *tt; static int tt_refs; static int is_mock;
 static TickitWindow *W[MAXO]; static int Wref[MAXO]; static int nW;
+/* bookkeeping of a well-behaved application: the window a handle was created under, whether the application
+ * itself closed it, and whether its (destroyed) parent has taken the creation reference with it */
+static int Wparent[MAXO]; static int Wdetached[MAXO]; static int Wconsumed[MAXO];
 static TickitPen *P[MAXO]; static int Pref[MAXO]; static int nP;
 static TickitString *S[MAXO]; static int Sref[MAXO]; static int nS;
 static TickitRenderBuffer *B[MAXO]; static int Bref[MAXO]; static int nB;
@@ -38,7 +41,19 @@ static int alive(const void *p) { return p && !__asan_address_is_poisoned(p); }
 
 static void outf(TickitTerm *t, const char *b, size_t n, void *u) { (void)t; (void)b; (void)n; (void)u; }
 
-static int heldw(int i) { return i >= 0 && i < nW && Wref[i] > 0 && alive(W[i]); }
+/* tickit_window_destroy(3): destroying a window "recursively destroy[s] any child windows": the parent drops the
+ * creation reference of every child still linked to it.  An application that knows this gives up one of its
+ * references to such a child (it may hold more, taken with tickit_window_ref). */
+static void sync_consumed(void)
+{
+  for(int i = 1; i < nW; i++)
+    if(!Wconsumed[i] && !Wdetached[i] && Wparent[i] >= 0 && !alive(W[Wparent[i]])) {
+      Wconsumed[i] = 1;
+      if(Wref[i] > 0) Wref[i]--;
+    }
+}
+
+static int heldw(int i) { sync_consumed(); return i >= 0 && i < nW && Wref[i] > 0 && alive(W[i]); }
 static int heldp(int i) { return i >= 0 && i < nP && Pref[i] > 0 && alive(P[i]); }
 static int helds(int i) { return i >= 0 && i < nS && Sref[i] > 0 && alive(S[i]); }
 static int heldb(int i) { return i >= 0 && i < nB && Bref[i] > 0 && alive(B[i]); }
@@ -103,7 +118,7 @@ static const char *simple_op(char kind, int i, struct beh *self)
   switch(kind) {
     case 'u': if(!heldw(i)) return "skip"; Wref[i]--; tickit_window_unref(W[i]); return "ok";
     case 'r': if(!heldw(i)) return "skip"; Wref[i]++; tickit_window_ref(W[i]); return "ok";
-    case 'c': if(!heldw(i)) return "skip"; tickit_window_close(W[i]); return "ok";
+    case 'c': if(!heldw(i)) return "skip"; Wdetached[i] = 1; tickit_window_close(W[i]); return "ok";
     case 'R': if(!usable(i)) return "skip"; tickit_window_raise(W[i]); return "ok";
     case 'F': if(!usable(i)) return "skip"; tickit_window_raise_to_front(W[i]); return "ok";
     case 'L': if(!usable(i)) return "skip"; tickit_window_lower(W[i]); return "ok";
@@ -146,6 +161,7 @@ static void engine_begin(void)
   tt = NULL; tt_refs = 0; is_mock = 0;
   nW = nP = nS = nB = nBEH = 0;
   memset(W, 0, sizeof W); memset(P, 0, sizeof P); memset(S, 0, sizeof S); memset(B, 0, sizeof B);
+  memset(Wparent, 0, sizeof Wparent); memset(Wdetached, 0, sizeof Wdetached); memset(Wconsumed, 0, sizeof Wconsumed);
   memset(Wref, 0, sizeof Wref); memset(Pref, 0, sizeof Pref); memset(Sref, 0, sizeof Sref); memset(Bref, 0, sizeof Bref);
   memset(BEH, 0, sizeof BEH);
 }
@@ -220,7 +236,7 @@ static void engine_op(int argc, char **argv)
       tickit_term_set_size(tt, lines, cols);
     }
     tt_refs = 1;
-    W[0] = tickit_window_new_root(tt); Wref[0] = 1; nW = 1;
+    W[0] = tickit_window_new_root(tt); Wref[0] = 1; Wparent[0] = -1; nW = 1;
     obs("ok"); dump();
     return;
   }
@@ -235,7 +251,7 @@ static void engine_op(int argc, char **argv)
     if(f & 4) flags |= TICKIT_WINDOW_ROOT_PARENT;
     if(f & 8) flags |= TICKIT_WINDOW_STEAL_INPUT;
     W[nW] = tickit_window_new(W[p], (TickitRect){ .top = A(2), .left = A(3), .lines = A(4), .cols = A(5) }, flags);
-    Wref[nW] = 1; nW++;
+    Wref[nW] = 1; Wparent[nW] = widx(tickit_window_parent(W[nW])); Wdetached[nW] = 0; Wconsumed[nW] = 0; nW++;
     obs("ok"); dump();
     return;
   }
